@@ -74,6 +74,9 @@ def check_case(ctx, ds, lname, n, schemes, flags=((True, False), (False, False),
                 if alg_objs is not None:
                     alg = alg_objs[ubi]
                 elif reused:
+                    case['reused_after'] = list(_lib.setdefault('hist', [])[-2:])
+                    _lib['hist'].append({'dataset': ds, 'scheme': s})
+                    del _lib['hist'][:-2]
                     alg = _lib.setdefault(('inst', ubi), _lib['A'](use_bucket_id=ubi))
                     ctx.count('executions_on_a_reused_algorithm_object')
                 else:
@@ -205,7 +208,18 @@ def run_shard(sh):
 
 
 def replay(ctx, c):
-    check_case(ctx, tt(c['dataset']), c['labels'], c['n'], [scheme_of(c['scheme'])])
+    if c.get('reused_after'):
+        for k in [k for k in _lib if isinstance(k, tuple) and k and k[0] in ('inst', 'seq')] + ['hist', 'earlier']:
+            _lib.pop(k, None)
+        scratch = Ctx(ID)
+        for prev in c['reused_after']:
+            check_case(scratch, tt(prev['dataset']), c['labels'], c['n'], [scheme_of(prev['scheme'])])
+    if c.get('mutated_in_place_from') and c['mutated_in_place_from'][0] == 'sequence':
+        sequences(ctx, tt(c['dataset']), c['labels'], c['n'])
+    elif c.get('mutated_in_place_from'):
+        histories(ctx, tt(c['mutated_in_place_from'][0]), c['labels'], c['n'], [scheme_of(c['scheme'])])
+    else:
+        check_case(ctx, tt(c['dataset']), c['labels'], c['n'], [scheme_of(c['scheme'])])
 
 
 def summarize(tier, seed, merged, phases):
